@@ -25,6 +25,8 @@ _MEM_TABLE = {
     "F20": ("isfinite", "isfinite", "default", "random", None),
     "F21": ("take", "take", None, None, None),
     "F33": ("argmax", "argmax", None, None, True),
+    "F34": ("rechunk-uneven", "rechunk", None, None, None),
+    "F35": ("widen-sum-u8", "sum", None, None, True),
 }
 
 
